@@ -180,7 +180,9 @@ def precedence(bom: int, a0: int, a1: int, a2: int, a3: int, a4: int, meta: int,
         # tree construction meets the declarations in document order while the encoding is tentative ("change the encoding"):
         # an invalid label is ignored, UTF-16 means UTF-8, the same encoding makes it certain, another one restarts the parse
         final = want
-        if not certain:
+        # (a tentative UTF-16 guess from likely_/default_encoding decodes this ASCII document to noise: no declaration is
+        # visible to tree construction, the guess stands - oracle corrected after a false alarm in the thorough tier)
+        if not certain and not want.startswith("utf-16"):
             labels = []
             if m:
                 labels.append([None, "windows-1251", "utf-16", "bogus"][m])
